@@ -32,6 +32,30 @@ type c01Ident struct {
 	pub  m.PublicAddress
 	priv ed25519.PrivateKey // nil when there is none (crafted identities)
 	kind string
+	// localOnly: presented to VerifyAddress and the configuration/storage loader only (no wire form)
+	localOnly bool
+}
+
+// consistentIdentity generates real key pairs until the digest over (typ, key) lies inside
+// (inFd) or outside fd00::/8; the address is that digest, the private key matches the public key:
+// self-consistent in everything but the one rule under test.
+func consistentIdentity(typ crop.KeyPairType, inFd bool) (*m.Address, error) {
+	for {
+		pub, priv, err := ed25519.GenerateKey(nil)
+		if err != nil {
+			return nil, err
+		}
+		p := m.PublicAddress{Hash: m.AddressDigestAlg, Type: typ, PublicKey: pub}
+		d, ok := digestFor(&p)
+		if !ok {
+			return nil, fmt.Errorf("no digest for type %q", typ)
+		}
+		p.IP = netip.AddrFrom16([16]byte(d[:16]))
+		if (d[0] == 0xfd) != inFd || m.InternalPrefix.Contains(p.IP) {
+			continue
+		}
+		return &m.Address{PublicAddress: p, PrivateKey: priv, KeyPair: crop.MakeEd25519KeyPair(priv, pub)}, nil
+	}
 }
 
 func digestFor(p *m.PublicAddress) (d []byte, ok bool) {
@@ -507,6 +531,22 @@ func runC01(c *Ctx) error {
 		vars := c01Variants(c, base, other)
 		for _, n := range []int{33, 48, 64} {
 			vars = append(vars, c01Ident{pub: craftOddKey(n), kind: fmt.Sprintf("oddkey-consistent-%d", n)})
+		}
+		// identities that are consistent in themselves (address = digest of the key material, private
+		// key matches) and break exactly one rule: outside fd00::/8; unknown key-type name; and a
+		// key-type name longer than its length field (no wire form)
+		if out, err := consistentIdentity(m.AddressKeyToolID, false); err == nil {
+			vars = append(vars, c01Ident{pub: out.PublicAddress, priv: out.PrivateKey, kind: "consistent-outside-fd00"})
+		}
+		for _, tn := range []string{"RSA", "ed25519"} {
+			if odd, err := consistentIdentity(crop.KeyPairType(tn), true); err == nil {
+				vars = append(vars, c01Ident{pub: odd.PublicAddress, priv: odd.PrivateKey, kind: "consistent-type-" + tn})
+			}
+		}
+		{
+			p := base.PublicAddress
+			p.Type = crop.KeyPairType(strings.Repeat("E", 256+c.Rng.IntN(300)))
+			vars = append(vars, c01Ident{pub: p, priv: base.PrivateKey, kind: "type-oversized", localOnly: true})
 		}
 		for _, id := range vars {
 			// (0) VerifyAddress itself
